@@ -42,9 +42,13 @@ pub enum Bad {
     BindTwice,
     UnbindUnbound,
     LoadGarbage,
+    /// valid path, argument of a type a host cannot pass (a divert target read back from a
+    /// variable)
+    PathBadArg(bool),
+    EvalBadArg,
 }
 
-const N_BAD: usize = 22;
+const N_BAD: usize = 25;
 
 fn bad_from(i: usize) -> Bad {
     match i % N_BAD {
@@ -69,7 +73,10 @@ fn bad_from(i: usize) -> Bad {
         18 => Bad::UnobserveUnregistered(false),
         19 => Bad::BindTwice,
         20 => Bad::UnbindUnbound,
-        _ => Bad::LoadGarbage,
+        21 => Bad::LoadGarbage,
+        22 => Bad::PathBadArg(true),
+        23 => Bad::PathBadArg(false),
+        _ => Bad::EvalBadArg,
     }
 }
 
@@ -200,6 +207,22 @@ fn inject(h: &mut Host, b: &Bad) -> Option<(bool, bool)> {
             false,
         )),
         Bad::LoadGarbage => Some((h.story.load_state("this is { not json").is_err(), false)),
+        Bad::PathBadArg(reset) => {
+            let v = h.story.get_variable("zz_dt")?;
+            if !matches!(v, ValueType::DivertTarget(_)) {
+                return None;
+            }
+            Some((h.story.choose_path_string(&first_knot, *reset, Some(&vec![v])).is_err(), false))
+        }
+        Bad::EvalBadArg => {
+            let v = h.story.get_variable("zz_dt")?;
+            if !matches!(v, ValueType::DivertTarget(_)) {
+                return None;
+            }
+            let name = h.meta.knots.iter().find(|k| k.contains('f')).cloned().unwrap_or(first_knot.clone());
+            let mut out = String::new();
+            Some((h.story.evaluate_function(&name, Some(&vec![v]), &mut out).is_err(), false))
+        }
     }
 }
 
@@ -403,7 +426,10 @@ pub fn run(env: &Env) -> i32 {
                 allow_fallbacks: true,
                 ..HostCfg::default()
             };
-            let case = json!({"source": b.src, "cfg": cfg_to_json(&cfg), "ops": ops_to_json(&ops), "inject": inject});
+            // a global holding a divert target: the only way a host gets hold of a value of a
+            // type it may not pass as an argument
+            let src = if b.src.contains("=== k0") { format!("VAR zz_dt = -> k0\n{}", b.src) } else { b.src.clone() };
+            let case = json!({"source": src, "cfg": cfg_to_json(&cfg), "ops": ops_to_json(&ops), "inject": inject});
             acc.sample(|| case.clone());
             exec(&case, acc)
         },
